@@ -16,11 +16,11 @@ def obs_table(ctx):
 def histories(ctx):
     hs = []
     if ctx.tier == "quick":
-        plan = [("GraphStore_h2.cfg", None, None), ("GraphLife_4.cfg", None, None), ("GraphStore_sim.cfg", "num=40", 16)]
+        plan = [("GraphStore_h2.cfg", None, None), ("GraphLife_4.cfg", None, None), ("GraphMixed_4.cfg", None, None), ("GraphStore_sim.cfg", "num=40", 16)]
     else:
-        plan = [("GraphStore_h3.cfg", None, None), ("GraphLife_5.cfg", None, None), ("GraphStore_sim.cfg", "num=400", 16)]
+        plan = [("GraphStore_h3.cfg", None, None), ("GraphLife_5.cfg", None, None), ("GraphMixed_5.cfg", None, None), ("GraphStore_sim.cfg", "num=400", 16)]
     for cfg, sim, depth in plan:
-        res = ctx.tlc("store", "GraphLife" if cfg.startswith("GraphLife") else "GraphStore", cfg, simulate=sim, depth=depth, timeout=1500, count=False, workers=8)
+        res = ctx.tlc("store", cfg.split("_")[0], cfg, simulate=sim, depth=depth, timeout=1500, count=False, workers=8)
         hs += res.msgs.get("hist", [])
     seen, out = set(), []
     for h in hs:
@@ -144,5 +144,5 @@ def run(ctx):
     ctx.assumptions += ["ServerRouting.tla: what the replay on a server with two drivers shows about the schema graphs (<g>__schema__) and the schema cache "
                         "is compared with the model but reported as MODEL-DRIFT only (no listed property speaks about them); the named deviations "
                         "CascadeWrongDriver and StaleSchemaCache are modelled as the code behaves",
-                        "re-creating an existing graph, batches mixing valid and invalid elements, and the result code of deleting something absent are left open",
+                        "re-creating an existing graph and the result code of deleting something absent are left open; a batch that mixes valid and invalid elements fails and must leave either nothing or exactly its valid elements stored (GraphMixed.tla), which of the two is open and ends the history",
                         "a timestamp may change on a successful call that changes nothing (e.g. delete of an absent element); it must change when the graph changed and must not change on failed calls or calls to another graph"]
